@@ -280,6 +280,7 @@ type c03XEnv struct {
 	key      string            // name of the key parameter
 	recv     string            // AddTo side: receiver name
 	elem     map[string]bool   // names/expressions denoting the loop element, printed form
+	elemLval string            // printed form of the slice element as an lvalue (recv[i], i the range key); "" if the loop ranges by value
 	subst    map[string]string // local identifiers with a known meaning (Coq term)
 	wrappers map[string]bool   // zap-internal named slice types with a marshal method (qualified names)
 	vars     map[string]ast.Expr
@@ -344,6 +345,11 @@ func (xe *c03XEnv) expr(e ast.Expr) (string, error) {
 		return "(EDeref " + a + ")", nil
 	case *ast.UnaryExpr:
 		if x.Op == token.AND {
+			// &recv[i] is the address of the caller's own element; the address of anything else that
+			// denotes the element (a range value variable, a local copy) is the address of a COPY
+			if xe.elemLval != "" && s.src(x.X) == xe.elemLval {
+				return "EElemAddr", nil
+			}
 			a, err := xe.expr(x.X)
 			if err != nil {
 				return "", err
